@@ -221,3 +221,47 @@ package web
 //@   at call POST#* before
 //@     assert [C16:route-carries-the-authorizer] path == "/security/token" || (len(m) >= 1 && has(authG, m[0]))
 
+
+// ---------------------------------------------------------------------------
+// C03 / C06: POST /query. A continuation request scans exactly the decoded continuations with the requested limit; a
+// first request passes its start points, predicate, direction, scope and limit through unchanged; the continuations
+// handed back are the ones the scan returned
+//@ assumed io.ReadAll
+//@   pure
+//@ assumed json.Unmarshal
+//@   modifies Query.*, JavascriptQuery.*, server.RelatedFrom.*
+//@ assumed web.decodeCont
+//@   pure
+//@ assumed web.encodeCont
+//@   pure
+//@ assumed (*server.Store).GetGlobalContext
+//@   pure
+//@ assumed server.ToLegacyQueryResult
+//@   pure
+//@ assumed (echo.Context).JSON
+//@   pure
+//@ assumed (*server.Store).GetManyRelatedEntitiesAtTime
+//@   pure
+//@ assumed (*server.Store).GetManyRelatedEntitiesBatch
+//@   pure
+//@ unit (*queryHandler).queryHandler
+//@   prop C03 C06
+//@   ghost contG slice
+//@   ghost outContG slice
+//@   requires handler != nil && handler.store != nil
+//@   at call decodeCont#1 before
+//@     assert [C03:the-continuations-of-the-request-are-decoded] $arg0 == query.Continuations
+//@   at call decodeCont#1
+//@     ghost contG := $result0
+//@   at call GetManyRelatedEntitiesAtTime#1 before
+//@     assert [C03,C06:a-continuation-request-scans-exactly-the-decoded-continuations-with-the-requested-limit] $arg1 == contG && $arg2 == query.Limit && $arg3 == !query.NoPartialMerging
+//@   at call GetManyRelatedEntitiesAtTime#1
+//@     ghost outContG := $result0.Cont
+//@   at call encodeCont#1 before
+//@     assert [C03:continuations-handed-back-are-the-ones-the-scan-returned] $arg0 == outContG
+//@   at call GetManyRelatedEntitiesBatch#1 before
+//@     assert [C03:a-first-request-passes-start-points-predicate-direction-scope-and-limit-through] $arg1 == query.StartingEntities && $arg2 == query.Predicate && $arg3 == query.Inverse && $arg4 == query.Datasets && $arg5 == query.Limit && $arg6 == !query.NoPartialMerging
+//@   at call GetManyRelatedEntitiesBatch#1
+//@     ghost outContG := $result0.Cont
+//@   at call encodeCont#2 before
+//@     assert [C03:continuations-handed-back-are-the-ones-the-scan-returned] $arg0 == outContG
